@@ -20,7 +20,9 @@ def gen_diagram(rng):
     pool = rng.choice([NAMES, DOTTED, NAMES + DOTTED])
     comps = rng.sample(pool, rng.randint(2, min(6, len(pool))))
     alias = {}
-    free = list(ALIASES)
+    # aliases come from the dedicated pool AND from component names this diagram does not use: what is an alias here is an
+    # ordinary component in another diagram parsed by the same interpreter (parsing must not remember earlier diagrams)
+    free = list(ALIASES) + [x for x in NAMES if x not in comps]
     rng.shuffle(free)
     for c in comps:
         if rng.random() < 0.4 and free:
